@@ -1,5 +1,6 @@
 import ctypes
 from enum import Enum
+from numbers import Integral
 
 _INT_RANGES = {
     ctypes.c_uint8: (0, 2**8 - 1),
@@ -33,7 +34,7 @@ def _check_field_ranges(struct, args, kwargs):
         if len(field) == 3:
             low, high = 0, 2 ** field[2] - 1
         for element in elements:
-            if isinstance(element, int) and not low <= element <= high:
+            if isinstance(element, Integral) and not low <= element <= high:
                 raise ValueError(
                     f"value {element} for field {name} of {type(struct).__name__} "
                     f"is outside the encodable range [{low}, {high}]"
